@@ -66,6 +66,15 @@ pub fn check_case(c: &NetCase, obs: &mut Obs) -> Result<(), String> {
         if spec.is_some() {
             obs.label("policy");
         }
+        if spec.as_ref().map_or(false, |s| s.len() >= 17) {
+            obs.label("policy-of-17+-directives");
+        }
+        if spec.as_ref().map_or(false, |s| s.len() >= 8) {
+            obs.label("policy-of-8+-directives");
+        }
+        if c.rules.len() > 20 {
+            obs.label("big-list");
+        }
         if blanket {
             obs.label("blanket-exception");
         }
@@ -110,15 +119,18 @@ pub fn decode(t: &mut Tape) -> NetCase {
     let long_domains = if t.chance(1, 6) { Some((1 + t.pick(24), 8 + t.pick(40))) } else { None };
     for k in 0..nrules {
         let p = t.choose(&pats);
-        let ex = t.chance(1, 3);
+        // big lists: fewer exceptions and hardly any blanket exception, so that a request really
+        // collects dozens of distinct directives (measured: label policy-of-17+-directives)
+        let big = nrules > 12;
+        let ex = if big { t.chance(1, 8) } else { t.chance(1, 3) };
         let mut opts = vec![];
-        if ex && t.chance(1, 3) {
+        if ex && (if big { t.chance(1, 12) } else { t.chance(1, 3) }) {
             opts.push(if t.chance(1, 3) { "csp=".to_string() } else { "csp".to_string() });
         } else if t.chance(1, 40) {
             opts.push("csp=".to_string());
         } else {
-            if nrules > 12 && t.chance(1, 2) {
-                opts.push(format!("csp=x-src d{}", k % 40));
+            if big && t.chance(3, 4) {
+                opts.push(format!("csp=x-src d{}", k % 64));
             } else {
                 opts.push(format!("csp={}", t.choose(&dirs)));
             }
